@@ -48,6 +48,7 @@ FIELD_TYPES = {
     # declared at base level so that specifications over a ProcessCommand can read it (field of ProcessStartCommand)
     ('ProcessCommand', 'ignore_wait_exit'): BOOL,
     ('Commander', 'class_name'): STR,
+    ('ApplicationStatus', 'rules'): TObj('ApplicationRules'),
     ('SupvisorsInstanceStatus', 'stats_collector'): TOpt(TObj('StatisticsCollectorProcess')),
     # annotated float, but only ever built by HostStatisticsCompiler.add_instance from options.stats_histo (an int)
     ('HostStatisticsInstance', 'depth'): INT,
